@@ -309,3 +309,248 @@ Proof.
     unfold str, char in *. rewrite Er.
     rewrite (p_digits_semi_render 16 isHex _ rest Hne Hcls eq_refl). now rewrite Hnum.
 Qed.
+
+Local Close Scope N_scope.
+Local Open Scope nat_scope.
+
+(** ** [10] attribute-value literals: [att_literal] is read back by [p_AttValue] as the same
+    sequence of characters and references, whatever the oracle chose *)
+Lemma isChar_bound ch : isChar ch = true -> (ch < 100000000)%N.
+Proof.
+  unfold isChar, spec_Char. cbn [eval existsb]. unfold in_range. cbn [fst snd]. intros H.
+  repeat rewrite orb_true_iff in H. repeat rewrite andb_true_iff in H.
+  repeat rewrite N.leb_le in H. repeat rewrite N.ltb_lt in H. lia.
+Qed.
+
+(** how one abstract item may come back *)
+Inductive piece_of : aitem -> list avpiece -> Prop :=
+| PoRef nm : piece_of (IRef nm) [AvEnt nm]
+| PoText s ps : Forall2 (fun ch pc => pc = AvLit ch \/ pc = AvChar ch \/ (exists nm, predef_name ch = Some nm /\ pc = AvEnt nm)) s ps ->
+                piece_of (IText s) ps.
+
+Definition quote (q : char) : Prop := q = c_quot \/ q = c_apos.
+
+Lemma predef_name_Name ch nm : predef_name ch = Some nm -> is_Name nm = true.
+Proof.
+  unfold predef_name. repeat (destruct (N.eqb ch _); [intros H; injection H as <-; reflexivity|]). discriminate.
+Qed.
+
+Lemma p_ref_entity nm T : is_Name nm = true -> p_ref (nm ++ c_semi :: T) = Some (REnt nm, T).
+Proof.
+  intros Hn. unfold p_ref. destruct nm as [|x nm]; [discriminate|]. cbn [app].
+  assert (Hx : N.eqb x c_hash = false).
+  { unfold is_Name in Hn. apply andb_true_iff in Hn. destruct Hn as [Hx _].
+    destruct (N.eqb_spec x c_hash) as [->|]; [discriminate|reflexivity]. }
+  rewrite Hx. change (x :: nm ++ c_semi :: T) with ((x :: nm) ++ c_semi :: T).
+  assert (En : p_Name ((x :: nm) ++ c_semi :: T) = Some (x :: nm, c_semi :: T)) by (apply p_Name_app; [exact Hn|reflexivity]).
+  unfold str, char in *. rewrite En. now rewrite N.eqb_refl.
+Qed.
+
+(** one rendered character and the piece it is read back as *)
+Definition lit_piece (q : char) (k : N) (ch : char) : avpiece :=
+  let esc := att_must_escape q ch in
+  match N.modulo k 4 with
+  | 0%N | 1%N => if esc then AvChar ch else AvLit ch
+  | 2%N => match predef_name ch with
+           | Some nm => AvEnt nm
+           | None => if esc then AvChar ch else AvLit ch end
+  | _ => AvChar ch
+  end.
+
+Definition rel_char (ch : char) (pc : avpiece) : Prop :=
+  pc = AvLit ch \/ pc = AvChar ch \/ (exists nm, predef_name ch = Some nm /\ pc = AvEnt nm).
+
+Lemma lit_piece_rel q k ch : rel_char ch (lit_piece q k ch).
+Proof.
+  unfold lit_piece, rel_char. destruct (N.modulo k 4) as [|m].
+  - destruct (att_must_escape q ch); auto.
+  - destruct m as [m|m|]; [auto| |destruct (att_must_escape q ch); auto].
+    destruct m as [m|m|]; auto. destruct (predef_name ch) as [nm|] eqn:E; [right; right; eauto|].
+    destruct (att_must_escape q ch); auto.
+Qed.
+
+Lemma lit_char_step q k ch T fuel : quote q -> isChar ch = true ->
+  p_pieces (S fuel) (Some q) c_lt (lit_char k (att_must_escape q ch) true ch ++ T) =
+  bind (p_pieces fuel (Some q) c_lt T) (fun '(ps, rest) => Some (lit_piece q k ch :: ps, rest)).
+Proof.
+  intros Hq Hc.
+  assert (Hq38 : N.eqb c_amp q = false) by (destruct Hq; subst q; reflexivity).
+  assert (Hlit : att_must_escape q ch = false ->
+    p_pieces (S fuel) (Some q) c_lt ([ch] ++ T) = bind (p_pieces fuel (Some q) c_lt T) (fun '(ps, rest) => Some (AvLit ch :: ps, rest))).
+  { intros He. unfold att_must_escape in He. repeat (apply orb_false_iff in He; destruct He as [He ?]).
+    cbn [app p_pieces]. rewrite H2, He, H3, Hc. destruct (p_pieces fuel (Some q) c_lt T) as [[ps rest]|]; reflexivity. }
+  assert (Href : forall k', p_pieces (S fuel) (Some q) c_lt (char_ref k' ch ++ T) =
+    bind (p_pieces fuel (Some q) c_lt T) (fun '(ps, rest) => Some (AvChar ch :: ps, rest))).
+  { intros k'. pose proof (char_ref_roundtrip k' ch T (isChar_bound ch Hc)) as Hr.
+    assert (Hs : exists t, char_ref k' ch = c_amp :: t) by (unfold char_ref; destruct (N.eqb (N.modulo k' 2) 0); eexists; reflexivity).
+    destruct Hs as [t Et]. rewrite Et in *. cbn [tl app] in *. cbn [p_pieces]. rewrite Hq38.
+    change (N.eqb c_amp c_lt) with false. rewrite N.eqb_refl. cbv iota. unfold str, char in *. rewrite Hr. cbn [bind piece_of_ref].
+    destruct (p_pieces fuel (Some q) c_lt T) as [[ps rest]|]; reflexivity. }
+  assert (Hent : forall nm, predef_name ch = Some nm ->
+    p_pieces (S fuel) (Some q) c_lt (entity_ref nm ++ T) = bind (p_pieces fuel (Some q) c_lt T) (fun '(ps, rest) => Some (AvEnt nm :: ps, rest))).
+  { intros nm Hn. unfold entity_ref. cbn [app p_pieces]. rewrite Hq38.
+    change (N.eqb c_amp c_lt) with false. rewrite N.eqb_refl. cbv iota.
+    rewrite <- app_assoc. cbn [app]. pose proof (p_ref_entity nm T (predef_name_Name _ _ Hn)) as Hr.
+    unfold str, char in *. rewrite Hr. cbn [bind piece_of_ref].
+    destruct (p_pieces fuel (Some q) c_lt T) as [[ps rest]|]; reflexivity. }
+  unfold lit_char, lit_piece. destruct (N.modulo k 4) as [|m].
+  - destruct (att_must_escape q ch) eqn:Ee; [apply Href|now apply Hlit].
+  - destruct m as [m|m|].
+    + apply Href.
+    + destruct m as [m|m|]; try apply Href.
+      destruct (predef_name ch) as [nm|] eqn:En; [now apply Hent|].
+      destruct (att_must_escape q ch) eqn:Ee; [apply Href|now apply Hlit].
+    + destruct (att_must_escape q ch) eqn:Ee; [apply Href|now apply Hlit].
+Qed.
+
+Fixpoint lit_pieces (q : char) (c : choices) (p : list N) (i : N) (s : str) : list avpiece :=
+  match s with
+  | [] => []
+  | ch :: t => lit_piece q (c (i :: p)) ch :: lit_pieces q c p (i + 1) t
+  end.
+
+Lemma lit_pieces_rel q c p : forall s i, Forall2 rel_char s (lit_pieces q c p i s).
+Proof. induction s as [|ch s IH]; intros i; cbn [lit_pieces]; constructor; [apply lit_piece_rel|apply IH]. Qed.
+
+Lemma lit_chars_read q c p : quote q -> forall s i T fuel, all_chars s = true ->
+  p_pieces (length s + fuel) (Some q) c_lt (lit_chars c p (att_must_escape q) true i s ++ T) =
+  bind (p_pieces fuel (Some q) c_lt T) (fun '(ps', rest) => Some (lit_pieces q c p i s ++ ps', rest)).
+Proof.
+  intros Hq. induction s as [|ch s IH]; intros i T fuel Hc.
+  - cbn [lit_chars lit_pieces app length Nat.add]. destruct (p_pieces fuel (Some q) c_lt T) as [[ps rest]|]; reflexivity.
+  - cbn [all_chars forallb] in Hc. apply andb_true_iff in Hc. destruct Hc as [Hch Hcs].
+    cbn [lit_chars lit_pieces length Nat.add]. rewrite <- app_assoc.
+    rewrite (lit_char_step q (c (i :: p)) ch _ (length s + fuel) Hq Hch).
+    rewrite (IH (i + 1)%N T fuel Hcs).
+    destruct (p_pieces fuel (Some q) c_lt T) as [[ps rest]|]; reflexivity.
+Qed.
+
+(** items: text and references *)
+Fixpoint items_pieces (q : char) (c : choices) (p : list N) (i : N) (l : list aitem) : list avpiece :=
+  match l with
+  | [] => []
+  | IText s :: t => lit_pieces q c (i :: p) 0 s ++ items_pieces q c p (i + 1) t
+  | IRef nm :: t => AvEnt nm :: items_pieces q c p (i + 1) t
+  end.
+
+Fixpoint items_size (l : list aitem) : nat :=
+  match l with [] => 0 | IText s :: t => length s + items_size t | IRef _ :: t => S (items_size t) end.
+
+Lemma lit_items_read q c p : quote q -> forall l i T fuel, items_ok l = true ->
+  p_pieces (items_size l + fuel) (Some q) c_lt (lit_items c p (att_must_escape q) true i l ++ T) =
+  bind (p_pieces fuel (Some q) c_lt T) (fun '(ps', rest) => Some (items_pieces q c p i l ++ ps', rest)).
+Proof.
+  intros Hq. assert (Hq38 : N.eqb c_amp q = false) by (destruct Hq; subst q; reflexivity).
+  induction l as [|it l IH]; intros i T fuel Hok.
+  - cbn [lit_items items_pieces items_size app Nat.add]. destruct (p_pieces fuel (Some q) c_lt T) as [[ps rest]|]; reflexivity.
+  - cbn [items_ok forallb] in Hok. apply andb_true_iff in Hok. destruct Hok as [Hit Hl].
+    destruct it as [s|nm]; cbn [lit_items items_pieces items_size].
+    + rewrite <- !app_assoc. rewrite <- Nat.add_assoc. rewrite (lit_chars_read q c (i :: p) Hq s 0%N _ _ Hit).
+      rewrite (IH (i + 1)%N T fuel Hl). destruct (p_pieces fuel (Some q) c_lt T) as [[ps rest]|]; cbn [bind]; [now rewrite app_assoc|reflexivity].
+    + unfold entity_ref. cbn [app Nat.add p_pieces]. rewrite Hq38.
+      change (N.eqb c_amp c_lt) with false. rewrite N.eqb_refl. cbv iota.
+      rewrite <- !app_assoc. cbn [app].
+      assert (Hn : is_Name nm = true) by (unfold is_NCName in Hit; apply andb_true_iff in Hit; tauto).
+      pose proof (p_ref_entity nm (lit_items c p (att_must_escape q) true (i + 1) l ++ T) Hn) as Hr.
+      unfold str, char in *. rewrite Hr. cbn [bind piece_of_ref].
+      rewrite (IH (i + 1)%N T fuel Hl). destruct (p_pieces fuel (Some q) c_lt T) as [[ps rest]|]; reflexivity.
+Qed.
+
+(** the whole literal *)
+Theorem att_literal_reads_back : forall c p v rest, items_ok v = true ->
+  exists q, quote q /\
+    p_AttValue (S (items_size v)) (att_literal c p v ++ rest) = Some (items_pieces q c (1%N :: p) 0 v, rest).
+Proof.
+  intros c p v rest Hok. unfold att_literal.
+  set (q := if (c (0%N :: p) mod 2 =? 0)%N then c_quot else c_apos).
+  assert (Hq : quote q) by (unfold q, quote; destruct (N.eqb _ _); auto).
+  exists q. split; [exact Hq|]. cbn [app]. unfold p_AttValue.
+  assert (Hiq : isQuote q = true) by (destruct Hq as [-> | ->]; reflexivity). rewrite Hiq.
+  rewrite <- app_assoc. cbn [app].
+  replace (S (items_size v)) with (items_size v + 1) by lia.
+  etransitivity; [exact (lit_items_read q c (1%N :: p) Hq v 0%N (q :: rest) 1 Hok)|].
+  cbn [p_pieces]. rewrite N.eqb_refl. cbn [bind]. now rewrite app_nil_r.
+Qed.
+
+(** ** the value read back does not depend on the oracle: it is the value of the canonical pieces *)
+Definition std_predef (en : env) : Prop :=
+  forall nm t, In (nm, t) predefined -> assoc nm (e_ents en) = Some (EInternal t).
+
+Lemma predef_value f en ch nm : std_predef en -> predef_name ch = Some nm ->
+  av_value (S (S f)) en [AvEnt nm] = [ch].
+Proof.
+  intros Hs Hn. unfold predef_name in Hn.
+  assert (Hcases : (ch = c_lt /\ nm = s_lt) \/ (ch = c_gt /\ nm = s_gt) \/ (ch = c_amp /\ nm = s_amp)
+                   \/ (ch = c_apos /\ nm = s_apos) \/ (ch = c_quot /\ nm = s_quot)).
+  { destruct (N.eqb_spec ch c_lt); [injection Hn as <-; auto|].
+    destruct (N.eqb_spec ch c_gt); [injection Hn as <-; auto|].
+    destruct (N.eqb_spec ch c_amp); [injection Hn as <-; auto|].
+    destruct (N.eqb_spec ch c_apos); [injection Hn as <-; auto 6|].
+    destruct (N.eqb_spec ch c_quot); [injection Hn as <-; auto 6|discriminate]. }
+  cbn [av_value flat_map]. rewrite app_nil_r.
+  destruct Hcases as [[-> ->]|[[-> ->]|[[-> ->]|[[-> ->]|[-> ->]]]]].
+  - rewrite (Hs s_lt [38;35;54;48;59]%N) by (cbn; auto). reflexivity.
+  - rewrite (Hs s_gt [62]%N) by (cbn; auto). reflexivity.
+  - rewrite (Hs s_amp [38;35;51;56;59]%N) by (cbn; auto). reflexivity.
+  - rewrite (Hs s_apos [39]%N) by (cbn; auto 6). reflexivity.
+  - rewrite (Hs s_quot [34]%N) by (cbn; auto 6). reflexivity.
+Qed.
+
+Lemma av_value_app f en a b : av_value f en (a ++ b) = av_value f en a ++ av_value f en b.
+Proof. destruct f; [reflexivity|]. cbn [av_value]. apply flat_map_app. Qed.
+
+Lemma av_value_cons f en x l : av_value f en (x :: l) = av_value f en [x] ++ av_value f en l.
+Proof. apply (av_value_app f en [x] l). Qed.
+
+Definition canon_piece (ch : char) : avpiece := if (isS ch && negb (N.eqb ch c_sp))%bool then AvChar ch else AvLit ch.
+
+Lemma lit_piece_value f en q k ch : quote q -> std_predef en ->
+  av_value (S (S f)) en [lit_piece q k ch] = av_value (S (S f)) en [canon_piece ch].
+Proof.
+  intros Hq Hs.
+  assert (Hcanon : av_value (S (S f)) en [canon_piece ch] = if isS ch then (if N.eqb ch c_sp then [c_sp] else [ch]) else [ch]).
+  { unfold canon_piece. cbn [av_value flat_map]. destruct (isS ch) eqn:E; cbn [andb negb].
+    - destruct (N.eqb ch c_sp); cbn [negb]; [now rewrite E|reflexivity].
+    - now rewrite E. }
+  assert (Hchar : av_value (S (S f)) en [AvChar ch] = av_value (S (S f)) en [canon_piece ch]).
+  { rewrite Hcanon. cbn [av_value flat_map app]. destruct (isS ch); [|reflexivity].
+    destruct (N.eqb_spec ch c_sp) as [->|]; reflexivity. }
+  assert (Hlit : att_must_escape q ch = false -> av_value (S (S f)) en [AvLit ch] = av_value (S (S f)) en [canon_piece ch]).
+  { intros He. rewrite Hcanon. cbn [av_value flat_map app]. destruct (isS ch) eqn:E; [|reflexivity].
+    destruct (N.eqb_spec ch c_sp) as [->|Hne]; [reflexivity|]. exfalso.
+    unfold att_must_escape in He. repeat (apply orb_false_iff in He; destruct He as [He ?]).
+    destruct (isS_cases ch E) as [-> | [-> | [-> | ->]]]; try discriminate; now elim Hne. }
+  unfold lit_piece. destruct (N.modulo k 4) as [|m].
+  - destruct (att_must_escape q ch) eqn:Ee; auto.
+  - destruct m as [m|m|]; [exact Hchar| |destruct (att_must_escape q ch) eqn:Ee; auto].
+    destruct m as [m|m|]; try exact Hchar.
+    destruct (predef_name ch) as [nm|] eqn:En; [|destruct (att_must_escape q ch) eqn:Ee; auto].
+    rewrite (predef_value f en ch nm Hs En). rewrite Hcanon.
+    assert (HnS : isS ch = false).
+    { unfold predef_name in En.
+      repeat (match type of En with (if ?b then _ else _) = _ => destruct b eqn:?E; [apply N.eqb_eq in E; subst ch; reflexivity|clear E] end).
+      discriminate. }
+    now rewrite HnS.
+Qed.
+
+Lemma lit_pieces_value f en q c p : quote q -> std_predef en -> forall s i,
+  av_value (S (S f)) en (lit_pieces q c p i s) = av_value (S (S f)) en (map canon_piece s).
+Proof.
+  intros Hq Hs. induction s as [|ch s IH]; intros i; [reflexivity|].
+  cbn [lit_pieces map]. rewrite av_value_cons, (av_value_cons _ _ (canon_piece ch)).
+  now rewrite (lit_piece_value f en q _ ch Hq Hs), IH.
+Qed.
+
+Lemma att_pieces_cons_text s l : att_pieces (IText s :: l) = map canon_piece s ++ att_pieces l.
+Proof. reflexivity. Qed.
+
+Theorem att_value_choice_independent : forall f en q c p v i, quote q -> std_predef en ->
+  av_value (S (S f)) en (items_pieces q c p i v) = av_value (S (S f)) en (att_pieces v).
+Proof.
+  intros f en q c p v i Hq Hs. revert i. induction v as [|it v IH]; intros i; [reflexivity|].
+  destruct it as [s|nm]; cbn [items_pieces].
+  - rewrite att_pieces_cons_text, !av_value_app, (lit_pieces_value f en q c (i :: p) Hq Hs s 0%N). now rewrite IH.
+  - change (att_pieces (IRef nm :: v)) with ([AvEnt nm] ++ att_pieces v).
+    change (AvEnt nm :: items_pieces q c p (i + 1) v) with ([AvEnt nm] ++ items_pieces q c p (i + 1) v).
+    rewrite !av_value_app. f_equal. apply IH.
+Qed.
